@@ -218,7 +218,7 @@ class Representation:
     def __getitem__(self, word):
         return self.element(word)
 
-    def element(self, word, parse_simple=True):
+    def element(self, word, parse_simple=None):
         matrix = self._word_value(word, parse_simple)
         return self.__class__.wrap_func(matrix)
 
